@@ -81,3 +81,48 @@ func VerifRunBC(bc *Bytecode, args ...Object) (Object, error, string) {
 	return o.val, o.err, o.out
 }
 func VerifSameError(a, b error) bool { return verifSameError(a, b) }
+
+// VerifRefRun: the reference interpreter for harnesses in other packages.
+// cb names a global that the reference run binds to a plain "call the first
+// argument with the remaining ones" function (the VM run binds it to a Go
+// function that goes through an Invoker).
+func VerifRefRun(src string, mm *ModuleMap, globals Map, cb string, args ...Object) (val Object, errName, errMsg string, failed bool, unsupported string) {
+	if globals == nil {
+		globals = Map{}
+	}
+	if cb != "" {
+		globals[cb] = &Function{Name: cb, Value: func(a ...Object) (Object, error) {
+			if len(a) == 0 {
+				return nil, ErrWrongNumArguments.NewError("want>=1 got=0")
+			}
+			return a[0].Call(a[1:]...)
+		}}
+	}
+	v, thr, ri := refRun(src, mm, globals, args...)
+	if thr != nil {
+		return nil, thr.Err.Name, thr.Err.Message, true, ri.unsupported
+	}
+	return v, "", "", false, ri.unsupported
+}
+
+func VerifSameObjectRI(got, want Object) bool { return verifSameObjectRI(got, want) }
+
+func VerifErrNameMsg(err error) (string, string) { return verifErrNameMsg(err) }
+
+// VerifInvokerCallback: a Go function that calls its first argument through
+// an Invoker (pooled child VM) with the remaining arguments.
+func VerifInvokerCallback(name string) *Function {
+	return &Function{Name: name, ValueEx: func(c Call) (Object, error) {
+		if c.Len() < 1 {
+			return nil, ErrWrongNumArguments.NewError("want>=1 got=0")
+		}
+		args := make([]Object, 0, c.Len()-1)
+		for i := 1; i < c.Len(); i++ {
+			args = append(args, c.Get(i))
+		}
+		inv := NewInvoker(c.VM(), c.Get(0))
+		inv.Acquire()
+		defer inv.Release()
+		return inv.Invoke(args...)
+	}}
+}
